@@ -21,6 +21,7 @@ type thread struct {
 	canRun func() bool // nil: runnable
 	i      *Interp
 	what   string // what it is blocked on (diagnostics)
+	vc     vclock // happens-before vector clock (race detection)
 }
 
 type mutexState struct {
@@ -56,6 +57,7 @@ func (i *Interp) spawn(fn value, args []value, pos token.Pos) {
 	t := &thread{id: len(i.threads), wake: make(chan struct{}, 1), exited: make(chan struct{}), i: i}
 	t.name = fmt.Sprintf("go#%d", t.id)
 	i.threads = append(i.threads, t)
+	i.raceSpawn(i.cur, t)
 	go func() {
 		defer close(t.exited)
 		<-t.wake
@@ -292,6 +294,7 @@ func (i *Interp) mutexLock(p *value) {
 		i.block(func() bool { return !mutexLocked(c) }, "Mutex.Lock")
 	}
 	*c = int32(1)
+	i.raceAcquire(c)
 	i.noteSync("lock", p)
 }
 
@@ -300,6 +303,7 @@ func (i *Interp) mutexUnlock(p *value) {
 	if !mutexLocked(c) {
 		panic(targetPanic{iface{t: i.runtimeErrorString, v: "fatal error: sync: unlock of unlocked mutex"}})
 	}
+	i.raceRelease(c)
 	*c = int32(0)
 	i.noteSync("unlock", p)
 	i.schedPoint("Mutex.Unlock")
@@ -327,6 +331,7 @@ func init() {
 				return false
 			}
 			*c = int32(1)
+			fr.i.raceAcquire(c)
 			return true
 		},
 		"sync.NewCond": func(fr *frame, args []value) value {
@@ -351,11 +356,13 @@ func init() {
 			cs.waiters = append(cs.waiters, w)
 			i.callMethod(fr, L, "Unlock")
 			i.block(func() bool { return w.signaled }, "Cond.Wait")
+			i.raceAcquire(p)
 			i.callMethod(fr, L, "Lock")
 			return nil
 		},
 		"(*sync.Cond).Signal": func(fr *frame, args []value) value {
 			i := fr.i
+			i.raceRelease(args[0].(*value))
 			cs := i.conds[args[0].(*value)]
 			if cs != nil && len(cs.waiters) > 0 {
 				k := 0
@@ -370,6 +377,7 @@ func init() {
 		},
 		"(*sync.Cond).Broadcast": func(fr *frame, args []value) value {
 			i := fr.i
+			i.raceRelease(args[0].(*value))
 			cs := i.conds[args[0].(*value)]
 			if cs != nil {
 				for _, w := range cs.waiters {
@@ -403,6 +411,7 @@ func init() {
 				w = &wgState{}
 				i.wgs[p] = w
 			}
+			i.raceRelease(p)
 			w.n--
 			if w.n < 0 {
 				panic(targetPanic{iface{t: i.runtimeErrorString, v: "sync: negative WaitGroup counter"}})
@@ -422,11 +431,13 @@ func init() {
 			if w.n > 0 {
 				i.block(func() bool { return w.n == 0 }, "WaitGroup.Wait")
 			}
+			i.raceAcquire(p)
 			return nil
 		},
 		"(*sync.Pool).Get": func(fr *frame, args []value) value {
 			i := fr.i
 			p := args[0].(*value)
+			i.raceAcquire(p)
 			if l := i.pools[p]; len(l) > 0 {
 				v := l[len(l)-1]
 				i.pools[p] = l[:len(l)-1]
@@ -446,12 +457,15 @@ func init() {
 		},
 		"(*sync.Pool).Put": func(fr *frame, args []value) value {
 			p := args[0].(*value)
+			fr.i.raceRelease(p)
 			fr.i.pools[p] = append(fr.i.pools[p], args[1])
 			return nil
 		},
 		"sync/atomic.AddUint64": func(fr *frame, args []value) value {
 			i := fr.i
 			p := args[0]
+			i.raceAcquire(p)
+			i.raceRelease(p)
 			old := i.loadFrom(types.Typ[types.Uint64], p)
 			nv := i.binop(token.ADD, types.Typ[types.Uint64], old, args[1])
 			i.storeTo(types.Typ[types.Uint64], p, nv)
@@ -459,6 +473,7 @@ func init() {
 			return nv
 		},
 		"sync/atomic.LoadUint64": func(fr *frame, args []value) value {
+			fr.i.raceAcquire(args[0])
 			return fr.i.loadFrom(types.Typ[types.Uint64], args[0])
 		},
 	} {
